@@ -1997,9 +1997,12 @@ class PseudoNetCDFFile(PseudoNetCDFSelfReg, object):
                         continue
                 if (
                     np.ma.is_masked(outvals) and
-                    not isinstance(var[...], np.ma.MaskedArray)
+                    all(getattr(var, pk, None) is None for pk in
+                        ('fill_value', 'missing_value', '_FillValue'))
                 ):
-                    # a later file contributes masked cells
+                    # a later file contributes masked cells to a variable
+                    # that copyVariable would create unmasked (the data of
+                    # a disk-backed variable are a masked array either way)
                     fill_value = outvals.fill_value
                 else:
                     fill_value = None
